@@ -159,7 +159,7 @@ def step (s : State) (tag : String) (args : List String) (o : String) : Option (
     | "m.surv" => some ({ s with surv := [Surveyor.init], stuck := false }, true, "-", "new")
     | "m.req" => some ({ s with req := [Req.init], stuck := false }, true, "-", "new")
     | "m.xreq" => some ({ s with xreq := [Xreq.init], stuck := false }, true, "-", "new")
-    | "m.rawq" => some ({ s with rawq := [RawRecv.init], stuck := false }, true, "-", "new")
+    | "m.rawq" => some ({ s with rawq := [if args.getD 1 "" == "xsub" then RawRecv.initSub else RawRecv.init], stuck := false }, true, "-", "new")
     | "m.core" => some ({ s with core := [Core.init], stuck := false }, true, "-", "new")
     | "m.ledger" => some ({ s with ledger := [{}], stuck := false }, true, "-", "new")
     | "m.hs" => some ({ s with hs := [Handshaker.init], stuck := false }, true, "-", "new")
